@@ -124,8 +124,8 @@ func c5EnabledCheap(c *Ctx, impls []*types.Named) {
 		return ""
 	}
 	for _, t := range impls {
-		fn := c.Method(t.Obj().Pkg().Path(), t.Obj().Name(), "Enabled")
-		tn := t.Obj().Pkg().Path() + "." + t.Obj().Name()
+		fn := c.Method(t.Obj().Pkg().Path(), TNm(t.Obj()), "Enabled")
+		tn := t.Obj().Pkg().Path() + "." + TNm(t.Obj())
 		if fn == nil || len(fn.Blocks) == 0 || fn.Synthetic != "" {
 			c.Triv("R5.7", tn, "Enabled", t.Obj().Pos(), "Enabled is promoted from an embedded enabler/core (decided at that type)")
 			continue
@@ -522,7 +522,7 @@ func c5Levels(c *Ctx, impls []*types.Named) {
 		if rn == nil {
 			continue
 		}
-		switch rn.Obj().Name() {
+		switch TNm(rn.Obj()) {
 		case "multiCore":
 			// min fold
 			var acc *ssa.Phi
@@ -1354,13 +1354,13 @@ func c5CheckDiscipline(c *Ctx) []*types.Named {
 	}
 	impls := c.Implementers(iface)
 	for _, t := range impls {
-		tn := t.Obj().Pkg().Path() + "." + t.Obj().Name()
+		tn := t.Obj().Pkg().Path() + "." + TNm(t.Obj())
 		class, ok := coreClass[tn]
 		if !ok {
 			c.Und("R5.1", tn, "class", t.Obj().Pos(), "new zapcore.Core implementation %s: not in the class table (leaf/filter/tee/passthrough/hookwrapper); classify it before the Check rule can be decided", tn)
 			continue
 		}
-		fn := c.Method(t.Obj().Pkg().Path(), t.Obj().Name(), "Check")
+		fn := c.Method(t.Obj().Pkg().Path(), TNm(t.Obj()), "Check")
 		if fn == nil || RecvNamed(fn) == nil || RecvNamed(fn).Obj() != t.Obj() {
 			c.Und("R5.1", tn, "Check", t.Obj().Pos(), "type has no Check method of its own (promoted?)")
 			continue
@@ -1370,7 +1370,7 @@ func c5CheckDiscipline(c *Ctx) []*types.Named {
 	for tn := range coreClass {
 		found := false
 		for _, t := range impls {
-			if t.Obj().Pkg().Path()+"."+t.Obj().Name() == tn {
+			if t.Obj().Pkg().Path()+"."+TNm(t.Obj()) == tn {
 				found = true
 			}
 		}
